@@ -321,7 +321,10 @@ def build_gparam(d):
     texts, iters = [], []
     for k, c in enumerate(d["calls"]):
         ty = gp_type(c["v"]) if c.get("typed") else None
-        P, G = gp_gen(*ty) if ty else gp_gen(Any, "Any")
+        # the generators are the JOB's own (the tag is part of their name): the other designs of the session are UNRELATED earlier work.
+        # (With one generator shared by all jobs, `Any`-typed 1 / 1.0 / True of different jobs are one cached call named by its first
+        #  spelling — the recorded C09 limit — and the name would depend on the order of the jobs in the session.)
+        P, G = gp_gen(ty[0], ty[1] + tag) if ty else gp_gen(Any, "Any" + tag)
         val = gp_dec(c["v"])
         params = P(v=val, w=c["w"])
         s = top.add(h.Signal(name=f"s{k}", width=c["w"]))
